@@ -8,7 +8,7 @@
   --   Cx.Spec.Stream.iter       : (α → α) → Nat → α → α        n-fold application
   --   Cx.Spec.Stream.ksByte     : (Nat → Bytes) → Nat → UInt8   keystream byte at an absolute position
   --   Cx.Spec.Stream.keystream  : (Nat → Bytes) → (pos len : Nat) → Bytes
-  --   Cx.Spec.Stream.keystreamFast (same value, blockwise; `Cx.Proofs.Stream.keystreamFast_eq`)
+  --   Cx.Spec.Stream.keystreamFast (same value, blockwise; theorem `Cx.Proofs.Stream.keystreamFast_eq` in Proofs/StreamFast.lean)
   --   Cx.Spec.Stream.encrypt    : (Nat → Bytes) → (pos : Nat) → Bytes → Bytes     data ⊕ KS[pos, pos+len)
 -/
 import CxVerif.Util.Bytes
